@@ -834,16 +834,33 @@ fn main_check(ctx: &Ctx) -> Outcome {
         }
     }
     out.findings.extend(adapted_findings);
+
+    // Pass-through modes over a boxed writer that short-writes / fails (deviation-bounded scripts,
+    // vchecks::fault_sys): every byte reported consumed must have reached the inner writer verbatim,
+    // write_all / write! (with arguments and literal-only) must deliver everything or return the error.
+    let mut fault_runs = 0u64;
+    let mut fault_dev = 0u64;
+    for mode in [vchecks::fault_sys::Mode::PassAnsi, vchecks::fault_sys::Mode::PassAlways] {
+        let maxlen = if quick { 4 } else { 5 };
+        let k_of = move |_len: usize| if quick { 2 } else { 3 };
+        let (f, runs, dev, _) = vchecks::fault_sys::sweep(mode, maxlen, &k_of);
+        out.findings.extend(f);
+        fault_runs += runs;
+        fault_dev += dev;
+        out.push_part(json!({"system": format!("{mode:?} over a scripted Box<dyn Write> (short writes, errors)"), "max_input_tokens": maxlen, "deviation_bound": if quick { 2 } else { 3 }, "executions": runs, "executions_with_deviation": dev}));
+    }
     out.push_part(json!({"system":"_macros::to_adapted_string","strings_upto_tokens":n,"token_strings":strs.len(),"global_choices":4,"stream_kinds":stream_kinds,"evaluations":evals}));
     let _ = std::fs::remove_dir_all(tmp_dir());
     let _ = std::panic::take_hook();
 
-    out.set("evaluations", json!(evals + explicit_cases));
+    out.set("evaluations", json!(evals + explicit_cases + fault_runs));
+    out.set("fault_script_executions", json!(fault_runs));
+    out.set("fault_script_executions_with_deviation", json!(fault_dev));
     out.set("distinct_nontrivial", json!(distinct.len()));
     out.set("rule", json!("evaluations = to_adapted_string calls (strings of <= n chunk tokens x 4 global choices x stream kinds) + explicit-constructor cases (6 constructors x 4 environments x 4 global choices x 2 writers); distinct_nontrivial = distinct (was-changed, result) pairs; the BFS numbers are in states/transitions/parts"));
     out.set("exhaustive", json!(all_fix));
     out.set("explanation", json!("one BFS per (writer kind, constructor); state = (mode, strip state) taken from the Debug text of the Vec<u8> stream with delivered bytes removed, x reference strip state; every BFS ran until the frontier was empty iff exhaustive=true, so every interleaving of the listed calls of any length is covered over this token alphabet"));
-    out.assume("writers never fail and never accept fewer bytes than offered (short writes/errors are property C06)");
+    out.assume("the BFS writers never fail and never accept fewer bytes than offered; short writes/errors are enumerated separately: for the strip modes by C06, for the pass-through modes by the fault-script part of this check");
     out.assume("write/write_vectored may report any count <= the bytes offered; only the reported prefix must have been delivered (the statement does not promise that write_vectored takes every slice)");
     out.assume("a flush call on the stream must reach the inner writer as at least one flush (observed on the Box<dyn Write> writer only); other calls may or may not flush");
     out.assume("for streams built with always()/new(Always) off Windows current_choice() may say AlwaysAnsi or Always; for always_ansi only AlwaysAnsi; for never/Auto-over-non-terminal only Never");
@@ -896,6 +913,7 @@ fn replay(v: &serde_json::Value) -> Result<(), String> {
             let _ = std::fs::remove_dir_all(tmp_dir());
             r
         }
+        "case" => vchecks::fault_sys::replay_case(v),
         k => Err(format!("unknown replay kind {k}")),
     }
 }
